@@ -25,7 +25,7 @@ ASSUME = ["premultiplied sources and destinations", "for fill/stroke/fill_rect t
 
 
 def run(ctx):
-    return _scene.run_property(ctx, CFG, 1500, 20000, RULE, concrete, ASSUME)
+    return _scene.run_property(ctx, CFG, 3000, 20000, RULE, concrete, ASSUME)
 
 
 def replay(ctx, path):
